@@ -13,12 +13,15 @@ RULE = ('generated documents (quick 30 / thorough 300) x placements of 1..3 malf
         'and verbatim text, leave every other token as in the undamaged import, and export the damaged cells verbatim in place (all compared with the '
         'model too); plus single-importer histories: all sequences up to length 3 (quick) / 5 (thorough, sampled to 4000) over a 12-token alphabet of '
         'valid and invalid tokens through ONE KernSpineImporter, each outcome compared with a fresh importer; plus the silent-shortening clause '
-        '(token text = cell text) on every corpus cell; non-trivial = at least one damaged cell followed by a valid **kern cell; distinct = (document, damage)')
+        '(token text = cell text) on every corpus cell (known finding F3 only for the cells its witness file lists); EVERY placement of 9 characters outside the **kern alphabet in 14 base tokens must be rejected; non-trivial = at least one damaged cell followed by a valid **kern cell; distinct = (document, damage)')
 ASSUMPTIONS = ['a cell is "malformed" when a fresh importer of its spine type rejects it (the ANTLR recogniser is a parameter)']
 
 UNKNOWN = ['4zz#', '4c%', '@@', '4h', '4c!', '=x=', '*clefQ9', 'wxyz']
 ORDER = ['#c4', 'c#4#', '-4c-r', '4#c', 'r4c']
 TRUNC = ['*k[f#', '*M4', '*clef', '8..', '4', '*xywh-1:1,2,3', '*MM', '(']
+# characters the **kern lexer has no rule for, and base tokens of every kind
+NONLEX = ['\u00a0', '\u2019', '\u00b7', '\u65e5', '\u00df', '\u200b', '\u20ac', '\u201c', '\u00ad']
+BASES = ['4c', '8.dd#L', '*clefG2', '=1', '2r', '4c 4e', '*M4/4', '*k[f#]', '.', '16ee-/', '==', '*k[b-e-]', '4.GG#', '*']   # not '*met(c)': '*' + anything is the silent-shortening class (F3)
 GARBAGE = ['4c@', '*clefG2x', '=1@', '4c 4', '4r%', '*M4/4x', '*k[]]', '==@']
 
 
@@ -34,7 +37,9 @@ def explore(ctx, depth):
     ctx.count('damage_texts_rejected', len(rejected))
     ctx.count('damage_texts_accepted_by_parser', len(accepted))
     # ---- silent shortening: the token of an accepted cell must carry the whole cell text (F3: no EOF in the start rule)
-    import corpus_tokens as CT
+    import corpus_tokens as CT, json
+    from common import VERIF as V
+    f3_cells = set(json.load(open(V / 'findings' / 'F3-no-eof.json')).get('cells', []))
     for t in CT.ALL + accepted:
         tk, o = tokobs.fresh_kern(t)
         if tk is None:
@@ -45,8 +50,21 @@ def explore(ctx, depth):
         if o['cls'] in ('BarToken',):
             continue
         if full != t:
+            # known finding F3 only for the cells listed in its witness file; any other shortened cell is a violation
+            listed = t in f3_cells
             ctx.fail({'cell': t, 'clause': 'no cell is silently shortened'}, 'the parser accepted a prefix of the cell and dropped the rest silently',
-                     impl=full, expected=t, core=False, finding='F3-no-eof', tie_ok=True)
+                     impl=full, expected=t, core=not listed, finding='F3-no-eof' if listed else None, tie_ok=True)
+    # ---- characters outside the **kern alphabet: every placement in every base token must be rejected (exhaustive over this grid)
+    for base in BASES:
+        for ch in NONLEX:
+            for pos in range(len(base) + 1):
+                t = base[:pos] + ch + base[pos:]
+                tk, o = tokobs.fresh_kern(t)
+                ctx.seen({'cell': t, 'clause': 'character outside the alphabet'}, True)
+                if tk is not None:
+                    ctx.fail({'cell': t, 'clause': 'character outside the alphabet'},
+                             'a **kern cell containing a character outside the **kern alphabet is not reported as malformed', impl=o, expected='rejected')
+    ctx.count('nonlexable_placements', sum(len(b) + 1 for b in BASES) * len(NONLEX))
     # ---- documents with damage
     cases = docrun.make_cases(ctx, 30 if depth == 'quick' else 300)
     dam_cases, metas = [], []
